@@ -259,7 +259,7 @@ m = {
          'kind_free_text': 'LLVM IR -> pointer-free C translator feeding CBMC 6.11 (bounded model checking of thread interleavings)'},
     ],
     'checks': checks,
-    'notes': 'see DESIGN.md (section 9 = as built, incl. which seeded changes each check catches); known_findings.txt lists recorded and fixed defects; seeded/ holds the 176 breaking changes produced by independent sub-agents in five rounds (175 applicable); a deterministic sample of the z3 queries of every run is re-decided by cvc5 (evidence: cvc5_second_opinion)',
+    'notes': 'see DESIGN.md (section 9 = as built, incl. which seeded changes each check catches); known_findings.txt lists recorded and fixed defects; seeded/ holds the 197 breaking changes produced by independent sub-agents in seven rounds (196 applicable); a deterministic sample of the z3 queries of every run is re-decided by cvc5 (evidence: cvc5_second_opinion)',
     'not_applicable': [{'property_id': p, 'reason': NA.get(p, NA_REASON)} for p in props if p not in CHECKS],
 }
 json.dump(m, open(os.path.join(HERE, 'MANIFEST.json'), 'w'), indent=1)
